@@ -32,6 +32,9 @@ func (ec *evalCtx) mapGet(m *MapV, k *Term) Value {
 }
 
 func (ec *evalCtx) mapLeafRead(m *MapV, t types.Type, prefix string, k *Term) Value {
+	if _, ok := t.Underlying().(*types.Interface); ok && !isErrorType(t) {
+		return &IfaceV{Tag: Select(m.Val[prefix+"#tag"], k), Id: Select(m.Val[prefix+"#id"], k), Payloads: map[string]Value{}}
+	}
 	if st, ok := t.Underlying().(*types.Struct); ok && !isStringLike(t) {
 		sv := &StructV{F: map[string]Value{}}
 		for i := 0; i < st.NumFields(); i++ {
@@ -62,6 +65,15 @@ func (ec *evalCtx) mapSet(m *MapV, k *Term, v Value) *MapV {
 	}
 	var set func(t types.Type, prefix string, v Value)
 	set = func(t types.Type, prefix string, v Value) {
+		if _, ok := t.Underlying().(*types.Interface); ok && !isErrorType(t) {
+			iv, ok := v.(*IfaceV)
+			if !ok {
+				panic(unsupported("map value of kind %T stored as interface", v))
+			}
+			n.Val[prefix+"#tag"] = Store(n.Val[prefix+"#tag"], k, iv.Tag)
+			n.Val[prefix+"#id"] = Store(n.Val[prefix+"#id"], k, iv.Id)
+			return
+		}
 		if st, ok := t.Underlying().(*types.Struct); ok && !isStringLike(t) {
 			sv := v.(*StructV)
 			for i := 0; i < st.NumFields(); i++ {
